@@ -96,26 +96,38 @@ def r1_no_shared_rmw(run, tree):
 
 # ------------------------------------------------------------------------------------------ kernel folding (D7)
 class Arr(Model):
-    """checker-side array model that records element updates"""
+    """checker-side accumulator model: records every element update together with the point being processed"""
 
-    def __init__(self, name, shape, log):
-        self.name, self.shape, self.log = name, tuple(shape), log
+    def __init__(self, name, shape, log, ctx):
+        self.name, self.shape, self.log, self.ctx = name, tuple(shape), log, ctx
+        self.reduced = 0
 
     def __getitem__(self, idx):
         return ("elem", self.name, idx)
 
     def __setitem__(self, idx, v):
-        self.log.append((self.name, idx, v))
+        self.log.append((self, idx, ("=", v), self.ctx.get("point")))
+
+    def sum(self, axis=None):
+        if axis == 0:
+            r = Arr(self.name, self.shape[1:], self.log, self.ctx)
+            r.reduced = self.reduced + 1
+            r.base = getattr(self, "base", self)
+            return r
+        raise Unsupported("sum(axis=%r) on an accumulator" % (axis,))
 
 
 class Vec(Model):
-    def __init__(self, name, data):
-        self.name, self.data = name, data
+    def __init__(self, name, data, ctx):
+        self.name, self.data, self.ctx = name, data, ctx
         self.shape = (len(data),)
 
     def __getitem__(self, idx):
-        if isinstance(idx, tuple):  # values[:, i]
+        if isinstance(idx, tuple):
             return ("col", self.name, idx[-1])
+        if not isinstance(idx, int) or idx < 0 or idx >= len(self.data):
+            raise Unsupported("index %r outside the input arrays" % (idx,))
+        self.ctx["point"] = idx
         return self.data[idx]
 
     def __len__(self):
@@ -131,9 +143,9 @@ class Vals(Model):
 
 
 class KernelEval(Evaluator):
-    def __init__(self, tree, fi, env, log):
+    def __init__(self, tree, fi, env, log, ctx, nthreads):
         super().__init__(env)
-        self.tree, self.fi, self.log = tree, fi, log
+        self.tree, self.fi, self.log, self.ctx, self.nthreads = tree, fi, log, ctx, nthreads
 
     def ev_Name(self, node):
         if node.id in self.env:
@@ -142,12 +154,15 @@ class KernelEval(Evaluator):
             return {"int": lambda v: int(v) if not isinstance(v, F) else math.trunc(v), "float": float, "len": len,
                     "range": range, "abs": abs, "min": min, "max": max, "round": round}[node.id]
         r = self.tree.resolve_name(self.fi.module, node.id)
-        if isinstance(r, tuple) and r[0] == "ext" and r[1] in ("numba.prange",):
-            return range
+        if isinstance(r, tuple) and r[0] == "ext":
+            return self.ext(r[1], node)
         raise Unsupported("name %s" % node.id)
 
-    def ev_Attribute(self, node):
-        d = self.tree.dotted(self.fi.module, node)
+    def ext(self, d, node):
+        if d in ("numba.prange",):
+            return range
+        if d in ("numba.get_num_threads", "numba.np.ufunc.parallel.get_num_threads"):
+            return lambda: self.nthreads
         if d in ("numpy.floor", "math.floor"):
             return lambda v: math.floor(v)
         if d in ("numpy.ceil", "math.ceil"):
@@ -156,15 +171,18 @@ class KernelEval(Evaluator):
             return lambda v: math.trunc(v)
         if d in ("numpy.rint", "numpy.round", "numpy.around"):
             return lambda v: round(v)
-        if d in ("numpy.zeros", "numpy.empty", "numpy.full"):
-            def mk(shape=None, *a, **k):
-                name = "arr%d" % (len([x for x in self.env.values() if isinstance(x, Arr)]))
-                return ("alloc", tuple(shape) if isinstance(shape, (tuple, list)) else (shape,))
-            return mk
-        if d in ("numpy.float64", "numpy.int64"):
+        if d in ("numpy.zeros", "numpy.empty"):
+            return lambda shape=None, *a, **k: ("alloc", tuple(shape) if isinstance(shape, (tuple, list)) else (shape,))
+        if d in ("numpy.float64", "numpy.int64", "numpy.float32", "numpy.int32"):
             return ("dtype", d)
-        if d in ("numpy.nan",):
-            return float("nan")
+        if d in ("numpy.isfinite",):
+            return lambda v: True
+        raise Unsupported("%s in the kernel" % d)
+
+    def ev_Attribute(self, node):
+        d = self.tree.dotted(self.fi.module, node)
+        if d:
+            return self.ext(d, node)
         return super().ev_Attribute(node)
 
     def attr(self, node, base):
@@ -181,7 +199,7 @@ class KernelEval(Evaluator):
 
     def assign(self, t, v):
         if isinstance(t, ast.Name) and isinstance(v, tuple) and v and v[0] == "alloc":
-            v = Arr(t.id, v[1], self.log)
+            v = Arr(t.id, v[1], self.log, self.ctx)
         return super().assign(t, v)
 
     def exec_stmt(self, st):
@@ -190,19 +208,19 @@ class KernelEval(Evaluator):
             idx = self.ev_index(st.target.slice)
             val = self.ev(st.value)
             if isinstance(base, Arr):
-                self.log.append((base.name, idx, ("+=", val)))
+                self.log.append((base, idx, ("+=", val), self.ctx.get("point")))
                 return
         return super().exec_stmt(st)
 
 
-def fold_kernel(tree, fi, px, py, xmin, xmax, nx, ymin, ymax, ny, nlayers=2):
-    log = []
+def fold_kernel(tree, fi, pts, xmin, xmax, nx, ymin, ymax, ny, nthreads=1, nlayers=2):
+    log, ctx = [], {}
     pn = params(fi)
     if len(pn) != 9:
         raise Unsupported("hist2d signature changed: %s" % pn)
     env = {}
-    ev = KernelEval(tree, fi, env, log)
-    args = [Vec("x", [px]), Vec("y", [py]), Vals(nlayers, 1), xmin, xmax, nx, ymin, ymax, ny]
+    ev = KernelEval(tree, fi, env, log, ctx, nthreads)
+    args = [Vec("x", [p[0] for p in pts], ctx), Vec("y", [p[1] for p in pts], ctx), Vals(nlayers, len(pts)), xmin, xmax, nx, ymin, ymax, ny]
     ret = ev.run_function(fi.node, args)
     arrays = {k: v for k, v in env.items() if isinstance(v, Arr)}
     return log, arrays, ret
@@ -210,7 +228,7 @@ def fold_kernel(tree, fi, px, py, xmin, xmax, nx, ymin, ymax, ny, nlayers=2):
 
 def r2_kernel_index_logic(run, tree):
     run.rule("C05.R2", "kernel index logic over all orderings of a coordinate against the bin edges (floor, range test, "
-             "x/y pairing, shapes, same guard for values and counts)", "D7 finite-case folding", "", floor=12)
+             "x/y pairing, shapes, same guard for values and counts), for several thread counts", "D7 finite-case folding", "", floor=12)
     fi = tree.func(KERNEL)
     run.analysed(fi)
     xmin, xmax, nx = F(0), F(10), 10          # dx = 1
@@ -228,38 +246,50 @@ def r2_kernel_index_logic(run, tree):
         ("far below", F(-50), F(50), None),
         ("far above", F(70), F(170), None),
         ("x in range for the y grid only", F(5), F(5), None),
+        ("second point in an occupied bin", F(36, 10), F(1034, 10), (1, 3)),
     ]
+    pts = [(c[1], c[2]) for c in cases]
     shapes_checked = False
-    for label, px, py, want in cases:
-        construct = "%s::point[%s]" % (KERNEL, label)
+    for nthreads in (1, 2, 4, 5):
+        tag = "" if nthreads == 1 else "[threads=%d]" % nthreads
         try:
-            log, arrays, ret = fold_kernel(tree, fi, px, py, xmin, xmax, nx, ymin, ymax, ny)
+            log, arrays, ret = fold_kernel(tree, fi, pts, xmin, xmax, nx, ymin, ymax, ny, nthreads)
         except (Unsupported, RaisedInModel, ZeroDivisionError, TypeError, IndexError) as e:
-            run.unresolved(construct, fi.where(), "cannot fold the kernel over this point: %s: %s" % (type(e).__name__, e))
+            run.unresolved("%s::fold%s" % (KERNEL, tag), fi.where(), "cannot fold the kernel over the sample points: %s: %s" % (type(e).__name__, e))
             continue
+        # the returned arrays: (values, counts), possibly reduced over a leading per-thread axis
+        if not (isinstance(ret, tuple) and len(ret) == 2 and all(isinstance(r, Arr) for r in ret)):
+            run.unresolved("%s::return%s" % (KERNEL, tag), fi.where(), "kernel does not return (values, counts) accumulators")
+            continue
+        rv, rc = ret
         if not shapes_checked:
             shapes_checked = True
-            shp = {a.name: a.shape for a in arrays.values()}
-            ok = sorted(shp.values(), key=len) == [(ny, nx), (2, ny, nx)]
-            run.ob(KERNEL + "::array-shapes", ok, fi.where(), "accumulators allocated as %s (required (ny, nx) and (layers, ny, nx))" % shp,
+            ok = rc.shape == (ny, nx) and rv.shape == (2, ny, nx)
+            run.ob(KERNEL + "::array-shapes", ok, fi.where(), "returned accumulators have shapes %s and %s (required (layers, ny, nx) and (ny, nx))" % (rv.shape, rc.shape),
                    "a non-square resolution indexes out of bounds or transposes the histogram")
-        count_updates = [(n, i, v) for n, i, v in log if len(arrays[n].shape) == 2] if arrays else []
-        value_updates = [(n, i, v) for n, i, v in log if len(arrays[n].shape) == 3] if arrays else []
-        problems = []
-        if want is None:
-            if log:
-                problems.append("out-of-range point is accumulated at %s" % [i for _, i, _ in log])
-        else:
-            if len(count_updates) != 1 or tuple(count_updates[0][1]) != want or count_updates[0][2] != ("+=", 1):
-                problems.append("counts updated at %s (required exactly once at %s with += 1)" % (
-                    [(i, v) for _, i, v in count_updates], want))
-            ok_v = len(value_updates) == 1 and tuple(value_updates[0][1][-2:]) == want and isinstance(value_updates[0][1][0], slice) \
-                and value_updates[0][2] == ("+=", ("col", "values", 0))
-            if not ok_v:
-                problems.append("values updated at %s (required once at [:, %s, %s] with += values[:, i])" % (
-                    [(i, v) for _, i, v in value_updates], want[0], want[1]))
-        run.ob(construct, not problems, fi.where(), "; ".join(problems) or ("binned at %s" % (want,) if want else "not binned"),
-               "a point %s is %s" % (label, "counted in the wrong bin / not exactly once" if want else "counted although it lies outside the range"))
+        base_c, base_v = getattr(rc, "base", rc), getattr(rv, "base", rv)
+        for i, (label, px, py, want) in enumerate(cases):
+            construct = "%s::point[%s]%s" % (KERNEL, label, tag)
+            cu = [(idx, v) for arr, idx, v, pt in log if arr is base_c and pt == i]
+            vu = [(idx, v) for arr, idx, v, pt in log if arr is base_v and (v == ("+=", ("col", "values", i)))]
+            other = [(arr.name, idx) for arr, idx, v, pt in log if pt == i and arr is not base_c and arr is not base_v]
+            problems = []
+            if want is None:
+                if cu or vu:
+                    problems.append("out-of-range point is accumulated at %s" % [tuple(idx[-2:]) for idx, _ in cu + vu])
+            else:
+                if len(cu) != 1 or tuple(cu[0][0][-2:]) != want or cu[0][1] != ("+=", 1):
+                    problems.append("counts updated %s (required exactly once at %s with += 1)" % (
+                        [(tuple(idx[-2:]), v) for idx, v in cu] or "never", want))
+                ok_v = len(vu) == 1 and tuple(vu[0][0][-2:]) == want and isinstance(vu[0][0][-3], slice)
+                if not ok_v:
+                    problems.append("values updated %s (required once at [:, %s, %s] with += values[:, i])" % (
+                        [tuple(idx[-2:]) for idx, _ in vu] or "never", want[0], want[1]))
+            if other:
+                problems.append("updates to arrays that are not returned: %s" % other[:2])
+            run.ob(construct, not problems, fi.where(), "; ".join(problems) or ("binned at %s" % (want,) if want else "not binned"),
+                   "a point %s is %s%s" % (label, "counted in the wrong bin / not exactly once" if want else "counted although it lies outside the range",
+                                           " when numba runs %d threads (totals depend on the thread count)" % nthreads if nthreads > 1 else ""))
 
 
 # ------------------------------------------------------------------------------------------ limits
